@@ -1,5 +1,7 @@
 import Fabio.Driver.Proto
+import Fabio.Driver.RouteJson
 import Fabio.Model.C16
+import Fabio.Model.C03
 /-!
 Driver handlers for C16.
 
@@ -221,11 +223,69 @@ def groupPairs (j : Json) (k : String) : Spec.SMD :=
 
 def toMD (m : Spec.SMD) : MD := m.map fun e => (s2l e.1, e.2.map s2l)
 
+/-! tables: the step's script (or its simple route list turned into `route add` commands, exactly as
+`harness/c16/call.go: defsOf` does), the dump of the implementation's table, and the routing configuration
+of the gRPC proxy (prefix matcher, host globbing on; the generated host patterns lie in the fragment
+`C03.globLib` models) -/
+
+def placeholder (i : Nat) : Str := ("grpc://b" ++ toString i).toList
+
+def backendIdx (u : Str) : Option Nat :=
+  let p := "grpc://b".toList
+  if p.isPrefixOf u then (String.ofList (u.drop p.length)).toNat? else none
+
+def routesToDefs (rs : List RSpec) : List Fabio.Model.Route.RouteDef :=
+  let rec go (n : Nat) : List (RSpec × Nat) → List Fabio.Model.Route.RouteDef
+    | [] => []
+    | (r, u) :: rest =>
+      { cmd := .add, service := ("svc" ++ toString n).toList, src := s2l (r.host ++ r.path), dst := placeholder u,
+        opts := [("proto".toList, "grpc".toList)] } :: go (n + 1) rest
+  go 0 (rs.flatMap fun r => r.urls.map fun u => (r, u))
+
+def stepDefs (st : Json) : List Fabio.Model.Route.RouteDef :=
+  match getArrD st "defs" with
+  | [] => routesToDefs (parseRoutes st "routes")
+  | ds => ds.filterMap fun d => (RouteJson.routeDef d).toOption
+
+def parseDump (o : Json) : Table :=
+  (getArrD o "dump").map fun h =>
+    (s2l (getStrD h "host"), (getArrD h "routes").map fun r =>
+      ({ host := s2l (getStrD r "host"), path := s2l (getStrD r "path"),
+         targets := (getArrD r "targets").map fun tg =>
+           ({ service := s2l (getStrD tg "service"), tags := [], opts := [], url := s2l (getStrD tg "url"),
+              fixedWeight := 0 } : Target) } : Route))
+
+def insHost (kv : Str × List (Str × List (Str × Str))) :
+    List (Str × List (Str × List (Str × Str))) → List (Str × List (Str × List (Str × Str)))
+  | [] => [kv]
+  | x :: xs => if Fabio.Model.Route.strLt kv.1 x.1 then kv :: x :: xs else x :: insHost kv xs
+
+/-- host ↦ routes in table order ↦ (service, URL) of the targets in order; hosts sorted -/
+def skeleton (t : Table) : List (Str × List (Str × List (Str × Str))) :=
+  (t.map fun kv => (kv.1, kv.2.map fun r => (r.path, r.targets.map fun tg => (tg.service, tg.url)))).foldr insHost []
+
+def grpcCfg : Fabio.Model.C03.Cfg :=
+  { globMatch := Fabio.Model.C03.globLib,
+    pathMatch := Fabio.Model.C03.pathMatch Fabio.Model.C03.globLib .pfx,
+    pick := fun r => r.targets.headD { service := [], tags := [], opts := [], url := [], fixedWeight := 0 } }
+
+/-- brute-force reference for the specification: the targets a call may be sent to are the targets of every
+route whose path is a prefix of the method path and whose host key is empty or matches the host (it does not
+use `Lookup`, its host order or its route order) -/
+def candidateURLs (t : Table) (host path : Str) : List Str :=
+  let nh := Fabio.Model.C03.normalizeHost host false
+  (t.filter fun kv => kv.1.isEmpty || Fabio.Model.C03.globLib (Fabio.Model.C03.normalizeHost kv.1 false) nh).flatMap fun kv =>
+    (kv.2.filter fun r => r.path.isPrefixOf path).flatMap fun r => r.targets.map (·.url)
+
 structure CallTrack where
   /-- backend index ↦ connection id of the last call that reached it (forgotten when the backend's URL is
   absent from a table: the real 5 s cleanup may drop the connection at any moment then) -/
   lastConn : List (Nat × Nat) := []
   urls : List Nat := []
+  /-- the table as the model of the command language builds it from the step's script (`Route.newTable`) -/
+  table : Table := []
+  /-- the table the implementation built, as `route.VerifDump` shows it -/
+  dump : Table := []
   agree : Bool := true
   spec : Bool := true
   failTag : String := ""
@@ -243,9 +303,27 @@ def CallTrack.note (t : CallTrack) (cls : String) (agree spec : Bool) (tag : Str
 def callStep (t : CallTrack) (st o : Json) : CallTrack :=
   match getStrD st "op" with
   | "table" =>
-    let urls := (parseRoutes st "routes").flatMap (·.urls)
-    { t with urls := urls, lastConn := t.lastConn.filter (fun kv => urls.contains kv.1),
-             model := t.model ++ [Json.str "table"] }
+    let defs := stepDefs st
+    let env := RouteJson.envOf ((getObj? o "env").getD (Json.mkObj []))
+    let implErr := getBoolD o "error"
+    match Fabio.Model.Route.newTable env defs with
+    | .error _ =>
+      -- NewTable failed: the active table stays
+      { t with agree := t.agree && implErr, model := t.model ++ [Json.str "table-error"],
+               failTag := if t.failTag.isEmpty && !implErr then "table-built-from-a-script-the-model-rejects" else t.failTag }
+    | .ok mt =>
+      let dump := parseDump o
+      let same := !implErr && skeleton mt == skeleton dump
+      let noEmpty := dump.all fun kv => kv.2.all fun r => !r.targets.isEmpty
+      let urls := (tableURLs dump).filterMap backendIdx
+      let why := if implErr then "table-script-rejected-by-the-implementation"
+                 else if !noEmpty then "table-keeps-a-route-without-targets"
+                 else "table-differs-from-the-command-model"
+      { t with urls := urls, lastConn := t.lastConn.filter (fun kv => urls.contains kv.1),
+               table := if implErr then t.table else mt, dump := if implErr then t.dump else dump,
+               agree := t.agree && same && noEmpty,
+               failTag := if t.failTag.isEmpty && !(same && noEmpty) then why else t.failTag,
+               model := t.model ++ [Json.str "table"] }
   | "call" =>
     let method := getStrD st "method"
     let sentMD := groupPairs st "md"
@@ -265,8 +343,16 @@ def callStep (t : CallTrack) (st o : Json) : CallTrack :=
     let path := getStrD o "path"
     -- the parser assumption of `grpc_lookup_args_plain`, checked against net/url
     let ppOK := !plainMethod (s2l method) || (pathOK && path == method)
-    let host := String.ofList (dstHost (toMD sentMD))
+    let hostL := dstHost (toMD sentMD)
+    let host := String.ofList hostL
     let entry := (getArrD o "oracle").find? fun e => getStrD e "h" == host
+    -- the composed model: C03's Lookup on the model-built table, for the request the interceptor builds
+    let answer := Fabio.Model.C03.Lookup grpcCfg t.table { host := hostL, tls := false, path := s2l path }
+    let modelURLs : List Nat := match answer with
+      | none => []
+      | some (_, r, _) => sortNats (r.targets.filterMap fun tg => backendIdx tg.url)
+    -- the specification's reference, on the implementation's own table
+    let cands := sortNats ((candidateURLs t.dump hostL (s2l path)).filterMap backendIdx)
     if !pathOK then
       let ok := saw.code == codeInternal && nhits == 0 && backend.isNone
       t.note "internal" (ok && ppOK) (nhits == 0) "internal-but-backend-contacted"
@@ -274,16 +360,30 @@ def callStep (t : CallTrack) (st o : Json) : CallTrack :=
     match entry with
     | none => t.note "oracle-missing" false true "oracle-missing"
     | some e =>
-      let urls := natsOf (getArrD e "urls")
+      -- the real `Table.Lookup`, asked directly by the harness, must agree with the composed model
+      let oracleOK := sortNats (natsOf (getArrD e "urls")) == modelURLs
+      let urls := modelURLs
+      if !oracleOK then
+        -- model and implementation route differently; the property still has its say on what was observed:
+        -- NotFound is right only when no route with a target matches the call
+        let nfWrong := saw.code == codeNotFound && backend.isNone && !cands.isEmpty
+        t.note "lookup-differs" false (!nfWrong)
+          (if nfWrong then "notfound-although-a-matching-route-has-a-target" else "table-lookup-differs-from-the-routing-model")
+      else
       if urls.isEmpty then
         let ok := saw.code == codeNotFound && saw.message == "no route found" && nhits == 0 && backend.isNone
                     && getNatD o "noroute" == 1
-        -- property: no matching route ⇒ NotFound without contacting a backend
-        let spec := saw.code == codeNotFound && nhits == 0 && backend.isNone
-        t.note "notfound" (ok && ppOK) spec (if saw.code != codeNotFound then "noroute-wrong-status" else "noroute-backend-contacted")
+        -- property: no matching route ⇒ NotFound without contacting a backend; and NotFound only then:
+        -- a route with a target whose host and path match the call must serve it
+        let spec := saw.code == codeNotFound && nhits == 0 && backend.isNone && cands.isEmpty
+        t.note "notfound" (ok && ppOK) spec
+          (if saw.code != codeNotFound then "noroute-wrong-status"
+           else if !cands.isEmpty then "notfound-although-a-matching-route-has-a-target"
+           else "noroute-backend-contacted")
       else
         match backend with
-        | none => t.note "forward" false false (if saw.code == codeNotFound then "route-exists-but-notfound" else "routed-call-reached-no-backend")
+        | none => t.note "forward" false (cands.isEmpty && saw.code == codeNotFound)
+                    (if saw.code == codeNotFound then "route-exists-but-notfound" else "routed-call-reached-no-backend")
         | some b =>
           let idx := getNatD b "idx"
           let conn := getNatD b "conn"
@@ -301,9 +401,12 @@ def callStep (t : CallTrack) (st o : Json) : CallTrack :=
           let reuseOK := match t.lastConn.lookup idx with
             | some c => c == conn
             | none => true
-          let spec := inSet && methodOK && mdOK && msgsFwd && msgsBack && statusOK && trailerOK && headerOK && reuseOK
+          -- the backend reached is a target of a route matching the call (reference on the dumped table)
+          let inCands := cands.contains idx && nhits == 1
+          let spec := inCands && methodOK && mdOK && msgsFwd && msgsBack && statusOK && trailerOK && headerOK && reuseOK
           let tag :=
-            if !inSet then "wrong-backend"
+            if !inCands then "backend-of-no-matching-route"
+            else if !inSet then "wrong-backend"
             else if !methodOK then "method-altered"
             else if !mdOK then "metadata-lost-or-altered"
             else if !reuseOK then "connection-not-reused"
